@@ -4,6 +4,7 @@ import AM.Proto
 import AM.ProtoTracker
 import AM.Model.Pipe
 import AM.Model.DirReader
+import AM.Model.Health
 /-! `amdriver <mode> [property]`: runs the executable model on cases read from stdin, one per line,
 prints the model's canonical observation, the verdict of the property's executable `Spec` on it
 and — when the case carries the implementation's observation (`obs=`) — the verdict on that. -/
@@ -190,6 +191,33 @@ def dirLine (f : List String) : String :=
     | _, _ => s!"{id} !badcase"
   | _ => "!badline"
 
+/-- C18 (sequential): `<id> <op;op;…> [obs=…]` -/
+def healthLine (f : List String) : String :=
+  match f with
+  | id :: ops :: rest =>
+    let go := (ops.splitOn ";").foldl (fun (acc : Health.M × List String × Bool) o =>
+      let (m, out, okp) := acc
+      if o.startsWith "add:" then
+        match ofHex (o.drop 4).toString with
+        | some c => (Health.apply m (.add c), out, okp)
+        | none => (m, out, false)
+      else if o.startsWith "ready:" then
+        match ofHex (o.drop 6).toString with
+        | some c => (Health.apply m (.ready c), out, okp)
+        | none => (m, out, false)
+      else if o == "get" then (m, out ++ [Health.render (Health.respond m)], okp)
+      else if o == "isready" then (m, out ++ [s!"R:{Health.isReady m}"], okp)
+      else if o == "wait" then (m, out ++ [if Health.isReady m then "W:closed" else "W:ctxerr"], okp)
+      else (m, out, false)) ([], [], true)
+    let (_, out, okp) := go
+    if !okp then s!"{id} !badcase" else
+    let obs := if out.isEmpty then "none" else String.intercalate ";" out
+    let isp := match kv rest "obs" with
+      | none => "-"
+      | some x => if x == obs then "ok" else "FAIL:readiness-answer-differs-from-the-fold-of-the-log"
+    s!"{id} {obs} spec=ok ispec={isp} dom=1 nt={if out.length ≥ 2 then "1" else "0"}"
+  | _ => "!badline"
+
 partial def loop (h : IO.FS.Stream) (out : IO.FS.Stream) (f : List String → String) : IO Unit := do
   let line ← h.getLine
   if line.isEmpty then return ()
@@ -203,6 +231,7 @@ def main (args : List String) : IO UInt32 := do
   match args with
   | ["sshd", prop] => loop stdin stdout (sshdLine prop); return 0
   | ["c07"] => loop stdin stdout c07Line; return 0
+  | ["health"] => loop stdin stdout healthLine; return 0
   | ["dir"] => loop stdin stdout dirLine; return 0
   | ["pipe"] => loop stdin stdout pipeLine; return 0
   | ["tracker", prop] => loop stdin stdout (trackerLine prop); return 0
